@@ -161,6 +161,18 @@ def function_before_declaration_scripts():
         body = "".join(f"    {c}\n" for c in calls)
         out.append(corpus.HDR + f"def helper():\n{body}    return 1\n{name} = {ctor}\nq = helper()\nmon.write(q)\n")
         out.append(corpus.HDR + f"{name} = {ctor}\ndef helper():\n{body}    return 1\nq = helper()\nmon.write(q)\n")
+    # ... and every method of every device class on its own (the finding lists the methods it covers, one by one)
+    from .C08 import specs
+    every = []
+    for sp in specs():
+        if sp["call"].startswith("d = ") or not sp["prelude"] or "zz = " in sp["call"]:
+            continue
+        every.append((sp["prelude"].strip(), sp["call"].format(args=", ".join(str(v) for v in sp["values"].values()))))
+    for prelude, cs in corpus.ZERO_ARG_CALLS:
+        every += [(prelude.strip(), c) for c in cs if not c.startswith("mon.write")]
+    for decl, call in every:
+        out.append(corpus.HDR + f"def helper():\n    {call}\n    return 1\n{decl}\nq = helper()\nmon.write(q)\n")
+        out.append(corpus.HDR + f"{decl}\ndef helper():\n    {call}\n    return 1\nq = helper()\nmon.write(q)\n")
     return out
 
 
@@ -208,7 +220,7 @@ def case_skiplog(case):
                 name = line.strip().split(".")[0]
                 decl = next(i for i, l in enumerate(lines) if re.match(rf"\s*{re.escape(name)}\s*=\s*\w+\(", l))
                 if decl > at:
-                    kind = "device-call-in-function-before-declaration:" + kind.split(":", 1)[1].split(".")[0]
+                    kind = "device-call-in-function-before-declaration:" + kind.split(":", 1)[1]   # Class.method
             except StopIteration:
                 pass
         recs.append((scope, depth, line, reason, verdict, kind))
